@@ -40,3 +40,23 @@ Qed.
 Theorem C04_unscheduled_unchanged : forall A (pool : list (thread A)) f i,
   nth_error pool i = None -> pool_step i (pool, f) = (pool, f).
 Proof. intros A pool f i H. unfold pool_step. rewrite H. reflexivity. Qed.
+
+(** Non-vacuity: key "a" holds "A" (inode 2); put of a value file "v" (inode 3,
+    "B"): no rename in the trace, the name still points to inode 2 whose
+    contents are still "A", and the source path is consumed.  The same put on an
+    absent key binds it to the value's inode. *)
+Example C04_example :
+  let mk (f : fs) (p : path) (c : N) :=
+    let '(f1, i) := alloc_inode f (mkInode false [c] 292 100%Z 50%Z 1 true) in
+    set_names f1 ((p, i) :: names f1) in
+  let '(f0, d) := alloc_inode empty_fs (mkInode true [] 493 0%Z 0%Z 2 true) in
+  let f0 := set_names f0 ((["w"%string], d) :: names f0) in
+  let f := mk (mk f0 ["w"; "a"]%string 65%N) ["v"%string] 66%N in
+  let cfg := mkStack 0 (Some (FPlain ["w"%string] 300)) [] None false ["systmp"%string] in
+  let o := mkOracle [1000; 1001; 1002]%Z [18446744073709551615%N] [] [] [] None 0 1%Z Relatime in
+  let go (name : string) :=
+    let '(r, w', _, tr) := run (cache_put cfg (mkKey name 1 2) ["v"%string]) (mkWorld f 0 []) o in
+    (r, name_of (w_fs w') ["w"; name]%string, name_of (w_fs w') ["v"%string],
+     forallb (fun ev => match ev with EvCall c _ => norename c | _ => true end) tr) in
+  go "a"%string = (Ok tt, Some 2%nat, None, true) /\ go "z"%string = (Ok tt, Some 3%nat, None, true).
+Proof. vm_compute. split; reflexivity. Qed.
